@@ -69,6 +69,11 @@ fn main() {
 struct Cx<'tcx> {
     tcx: TyCtxt<'tcx>,
     seen_adts: std::cell::RefCell<std::collections::BTreeMap<String, DefId>>,
+    /// non-local, fully concrete callee instances whose MIR is available (inlinable library code)
+    ext_todo: std::cell::RefCell<Vec<Instance<'tcx>>>,
+    ext_seen: std::cell::RefCell<std::collections::BTreeSet<String>>,
+    /// Some(..) while dumping a monomorphised library body
+    mono: std::cell::Cell<bool>,
 }
 
 fn span_json(tcx: TyCtxt<'_>, sp: Span) -> (String, bool) {
@@ -91,6 +96,14 @@ fn span_json(tcx: TyCtxt<'_>, sp: Span) -> (String, bool) {
 }
 
 impl<'tcx> Cx<'tcx> {
+    fn env(&self, owner: DefId) -> TypingEnv<'tcx> {
+        if self.mono.get() {
+            TypingEnv::fully_monomorphized()
+        } else {
+            TypingEnv::post_analysis(self.tcx, owner)
+        }
+    }
+
     fn ty(&self, t: Ty<'tcx>) -> J {
         match t.kind() {
             ty::Bool => J::obj(vec![("k", J::s("bool"))]),
@@ -140,6 +153,27 @@ impl<'tcx> Cx<'tcx> {
                 ("elems", J::Arr(elems.iter().map(|e| self.ty(e)).collect())),
             ]),
             ty::Param(p) => J::obj(vec![("k", J::s("param")), ("name", J::Str(p.name.to_string()))]),
+            ty::Array(elem, len) => J::obj(vec![
+                ("k", J::s("array")),
+                ("elem", self.ty(*elem)),
+                (
+                    "len",
+                    match len.try_to_target_usize(self.tcx) {
+                        Some(n) => J::Int(n as i128),
+                        None => J::Null,
+                    },
+                ),
+            ]),
+            ty::Slice(elem) => J::obj(vec![("k", J::s("slice")), ("elem", self.ty(*elem))]),
+            ty::Closure(did, args) => J::obj(vec![
+                ("k", J::s("closure")),
+                ("path", J::Str(self.tcx.def_path_str(*did))),
+                (
+                    "upvars",
+                    J::Arr(args.as_closure().upvar_tys().iter().map(|t| self.ty(t)).collect()),
+                ),
+            ]),
+            ty::Str => J::obj(vec![("k", J::s("str"))]),
             ty::Never => J::obj(vec![("k", J::s("never"))]),
             ty::FnDef(did, args) => J::obj(vec![
                 ("k", J::s("fndef")),
@@ -179,6 +213,13 @@ impl<'tcx> Cx<'tcx> {
                         },
                     ),
                 ]),
+                ProjectionElem::Index(l) => J::obj(vec![("k", J::s("index")), ("l", J::Int(l.as_usize() as i128))]),
+                ProjectionElem::ConstantIndex { offset, min_length, from_end } => J::obj(vec![
+                    ("k", J::s("cindex")),
+                    ("i", J::Int(offset as i128)),
+                    ("min_length", J::Int(min_length as i128)),
+                    ("from_end", J::Bool(from_end)),
+                ]),
                 other => J::obj(vec![("k", J::s("other")), ("s", J::Str(format!("{:?}", other)))]),
             });
         }
@@ -203,10 +244,24 @@ impl<'tcx> Cx<'tcx> {
             v.push(("trait", J::Str(tcx.def_path_str(tr))));
         }
         // resolution
-        let env = TypingEnv::post_analysis(tcx, owner);
+        let env = self.env(owner);
         let res = match Instance::try_resolve(tcx, env, did, args) {
             Ok(Some(inst)) => {
                 let rd = inst.def_id();
+                if !rd.is_local()
+                    && matches!(inst.def, ty::InstanceKind::Item(_))
+                    && tcx.is_mir_available(rd)
+                    && tcx.intrinsic(rd).is_none()
+                    && !inst.args.iter().any(|a| {
+                        use rustc_middle::ty::TypeVisitableExt;
+                        a.has_non_region_param()
+                    })
+                {
+                    let key = tcx.def_path_str_with_args(rd, inst.args);
+                    if self.ext_seen.borrow_mut().insert(key) {
+                        self.ext_todo.borrow_mut().push(inst);
+                    }
+                }
                 let kind = match inst.def {
                     ty::InstanceKind::Item(_) => "item",
                     ty::InstanceKind::Intrinsic(_) => "intrinsic",
@@ -244,7 +299,7 @@ impl<'tcx> Cx<'tcx> {
             }
             v.push(("named", J::Str(tcx.def_path_str(uv.def))));
         }
-        let env = TypingEnv::post_analysis(tcx, owner);
+        let env = self.env(owner);
         let scalar_like = matches!(
             t.kind(),
             ty::Bool | ty::Char | ty::Int(_) | ty::Uint(_)
@@ -255,6 +310,15 @@ impl<'tcx> Cx<'tcx> {
                 v.push(("int", J::Int(si.to_bits(size) as i128)));
                 v.push(("bytes", J::Int(size.bytes() as i128)));
                 return J::obj(v);
+            }
+        }
+        // structured constant (array / tuple / ADT of scalars): destructure via const eval
+        if matches!(t.kind(), ty::Array(..) | ty::Tuple(..) | ty::Adt(..)) {
+            if let Ok(val) = c.eval(tcx, env, rustc_span::DUMMY_SP) {
+                if let Some(j) = self.const_value(val, t, 0) {
+                    v.push(("val", j));
+                    return J::obj(v);
+                }
             }
         }
         // zero-sized?
@@ -269,6 +333,45 @@ impl<'tcx> Cx<'tcx> {
         }
         v.push(("other", J::Str(format!("{:?}", c))));
         J::obj(v)
+    }
+
+    /// Structured value of an evaluated constant: {"int":n} | {"elems":[..]} (array/tuple) |
+    /// {"variant":i,"fields":[..]} (ADT).  None if anything is not plain data.
+    fn const_value(&self, val: rustc_middle::mir::ConstValue, t: Ty<'tcx>, depth: usize) -> Option<J> {
+        let tcx = self.tcx;
+        if depth > 6 {
+            return None;
+        }
+        match t.kind() {
+            ty::Bool | ty::Char | ty::Int(_) | ty::Uint(_) => {
+                let si = val.try_to_scalar_int()?;
+                Some(J::obj(vec![("int", J::Int(si.to_bits(si.size()) as i128)), ("ty", self.ty(t))]))
+            }
+            ty::Array(..) | ty::Tuple(..) | ty::Adt(..) => {
+                if let ty::Adt(def, _) = t.kind() {
+                    if def.is_union() {
+                        return None;
+                    }
+                }
+                let d = tcx.try_destructure_mir_constant_for_user_output(val, t)?;
+                let mut fields = Vec::new();
+                for (fv, fty) in d.fields.iter() {
+                    fields.push(self.const_value(*fv, *fty, depth + 1)?);
+                }
+                let mut o = vec![("ty", self.ty(t))];
+                match t.kind() {
+                    ty::Adt(def, _) => {
+                        let vi = d.variant.map(|x| x.as_usize()).unwrap_or(0);
+                        o.push(("path", J::Str(tcx.def_path_str(def.did()))));
+                        o.push(("variant", J::Int(vi as i128)));
+                        o.push(("fields", J::Arr(fields)));
+                    }
+                    _ => o.push(("elems", J::Arr(fields))),
+                }
+                Some(J::obj(o))
+            }
+            _ => None,
+        }
     }
 
     fn operand(&self, owner: DefId, o: &Operand<'tcx>) -> J {
@@ -317,6 +420,11 @@ impl<'tcx> Cx<'tcx> {
                         v.push(("args", self.generic_args(args)));
                     }
                     AggregateKind::Tuple => v.push(("kind", J::s("tuple"))),
+                    AggregateKind::Array(_) => v.push(("kind", J::s("array"))),
+                    AggregateKind::Closure(did, _) => {
+                        v.push(("kind", J::s("closure")));
+                        v.push(("path", J::Str(self.tcx.def_path_str(*did))));
+                    }
                     other => {
                         v.push(("kind", J::s("other")));
                         v.push(("s", J::Str(format!("{:?}", other))));
@@ -328,6 +436,17 @@ impl<'tcx> Cx<'tcx> {
             Rvalue::CopyForDeref(p) => J::obj(vec![
                 ("k", J::s("use")),
                 ("op", J::obj(vec![("k", J::s("copy")), ("pl", self.place(p))])),
+            ]),
+            Rvalue::Repeat(op, n) => J::obj(vec![
+                ("k", J::s("repeat")),
+                ("op", self.operand(owner, op)),
+                (
+                    "n",
+                    match n.try_to_target_usize(self.tcx) {
+                        Some(n) => J::Int(n as i128),
+                        None => J::Null,
+                    },
+                ),
             ]),
             Rvalue::RawPtr(_, p) => J::obj(vec![("k", J::s("rawptr")), ("pl", self.place(p))]),
             other => J::obj(vec![("k", J::s("other")), ("s", J::Str(format!("{:?}", other)))]),
@@ -533,7 +652,7 @@ fn dump_adt<'tcx>(cx: &Cx<'tcx>, did: DefId) -> J {
 }
 
 fn dump_crate<'tcx>(tcx: TyCtxt<'tcx>, name: &str) -> J {
-    let cx = Cx { tcx, seen_adts: Default::default() };
+    let cx = Cx { tcx, seen_adts: Default::default(), ext_todo: Default::default(), ext_seen: Default::default(), mono: std::cell::Cell::new(false) };
     let mut adts = Vec::new();
     let mut impls = Vec::new();
     let mut consts = Vec::new();
@@ -608,6 +727,32 @@ fn dump_crate<'tcx>(tcx: TyCtxt<'tcx>, name: &str) -> J {
     for ldid in tcx.mir_keys(()).iter() {
         let did = ldid.to_def_id();
         let kind = tcx.def_kind(did);
+        if matches!(kind, DefKind::Closure) {
+            let (sp, exp) = span_json(tcx, tcx.def_span(did));
+            let body = tcx.optimized_mir(did);
+            let promoted = tcx.promoted_mir(did);
+            fns.push(J::obj(vec![
+                ("path", J::Str(tcx.def_path_str(did))),
+                ("kind", J::s("Closure")),
+                ("vis", J::s("closure")),
+                ("is_const", J::Bool(false)),
+                ("unsafe", J::Bool(false)),
+                ("sp", J::Str(sp)),
+                ("x", J::Bool(exp)),
+                (
+                    "inputs",
+                    J::Arr(body.args_iter().map(|l| cx.ty(body.local_decls[l].ty)).collect()),
+                ),
+                ("output", cx.ty(body.return_ty())),
+                ("generics", J::Arr(vec![])),
+                ("name", J::s("{closure}")),
+                ("closure_of", J::Str(tcx.def_path_str(tcx.typeck_root_def_id(did)))),
+                ("derived", J::Bool(false)),
+                ("body", cx.body(did, body)),
+                ("promoted", J::Arr(promoted.iter().map(|b| cx.body(did, b)).collect())),
+            ]));
+            continue;
+        }
         if !matches!(kind, DefKind::Fn | DefKind::AssocFn) {
             skipped.push(J::obj(vec![
                 ("path", J::Str(tcx.def_path_str(did))),
@@ -665,6 +810,45 @@ fn dump_crate<'tcx>(tcx: TyCtxt<'tcx>, name: &str) -> J {
         fns.push(J::obj(v));
     }
 
+    // monomorphised MIR of inlinable library callees (closed under their own callees, bounded)
+    let mut ext_fns = Vec::new();
+    cx.mono.set(true);
+    let mut idx = 0usize;
+    loop {
+        let inst = {
+            let q = cx.ext_todo.borrow();
+            if idx >= q.len() || idx >= 400 {
+                break;
+            }
+            q[idx]
+        };
+        idx += 1;
+        let rd = inst.def_id();
+        let body = tcx.instance_mir(inst.def);
+        let mono = inst.instantiate_mir_and_normalize_erasing_regions(
+            tcx,
+            TypingEnv::fully_monomorphized(),
+            ty::EarlyBinder::bind(body.clone()),
+        );
+        let (sp, exp) = span_json(tcx, tcx.def_span(rd));
+        ext_fns.push(J::obj(vec![
+            ("path", J::Str(tcx.def_path_str(rd))),
+            ("path_inst", J::Str(tcx.def_path_str_with_args(rd, inst.args))),
+            ("crate", J::Str(tcx.crate_name(rd.krate).to_string())),
+            ("kind", J::Str(format!("{:?}", tcx.def_kind(rd)))),
+            ("vis", J::s("ext")),
+            ("is_const", J::Bool(false)),
+            ("unsafe", J::Bool(false)),
+            ("sp", J::Str(sp)),
+            ("x", J::Bool(exp)),
+            ("name", J::Str(tcx.item_name(rd).to_string())),
+            ("derived", J::Bool(false)),
+            ("body", cx.body(rd, &mono)),
+            ("promoted", J::Arr(vec![])),
+        ]));
+    }
+    cx.mono.set(false);
+
     // non-local ADTs mentioned in any dumped type (Result, Option, ControlFlow, ...),
     // closed under their own field types
     let mut ext_adts = Vec::new();
@@ -693,6 +877,7 @@ fn dump_crate<'tcx>(tcx: TyCtxt<'tcx>, name: &str) -> J {
     J::obj(vec![
         ("crate", J::Str(name.to_string())),
         ("ext_adts", J::Arr(ext_adts)),
+        ("ext_fns", J::Arr(ext_fns)),
         ("rustc", J::Str(rustc_session::config::host_tuple().to_string())),
         ("mir_opt_level", J::Int(tcx.sess.mir_opt_level() as i128)),
         ("overflow_checks", J::Bool(tcx.sess.overflow_checks())),
